@@ -1,6 +1,7 @@
 import ASV.Drv.J
 import ASV.Spec.Lookup
 import ASV.Spec.GeneFunctions
+import ASV.Model.Bisect
 namespace ASV.Drv.C08
 open Lean ASV ASV.Drv ASV.Lookup
 
@@ -215,6 +216,7 @@ def handle (j : Json) : R Json := do
     let qs ← listOf (fun x => do return ((← locOfJson (← fld x "q")), (← boolF x "ov"))) (← fld j "qs")
     let m := run len (genes.map Op.cds)
     let model := eJson (fun (r : Rec) => jObj [("order", ids r.genes),
+      ("bisect", toJson (genes.map fun g => Bisect.bisect (fun f : Gene => !locLt g.loc f.loc) r.genes)),
       ("found", jArr (qs.map fun (q, ov) => ids (within r.genes q ov)))]) m
     -- spec on the implementation's gene order
     let order ← match j.getObjVal? "order" with
